@@ -18,6 +18,16 @@ pub fn run(toks: &[&str]) -> String {
                 acc.push(format!("- {}", state(&t)));
                 i += 3;
             }
+            "N" => {
+                // the same set_message repeated <count> times (one state line): counters behind the dirty flag must not wrap
+                let count: u64 = toks[i + 1].trim_start_matches('L').parse().unwrap();
+                let (k, m) = (str_of_l(toks[i + 2]), str_of_l(toks[i + 3]));
+                for _ in 0..count {
+                    t.set_message(&k, &m);
+                }
+                acc.push(format!("- {}", state(&t)));
+                i += 4;
+            }
             "D" => {
                 t.delete_message(&str_of_l(toks[i + 1]));
                 acc.push(format!("- {}", state(&t)));
